@@ -21,7 +21,7 @@ CLAIMED = {
             'DESIGN.md §4 C19'),
     'C01': ('model_checking', 'symbolic execution of rustc MIR (mirsym) + z3: inductive step of the real selectTransitions/microstep from every legal pre-state',
             'Bounded symbolic model checking, inductive: from an arbitrary legal configuration and arbitrary legal history record (not only reachable ones) the real selection + microstep code is executed with symbolic transitions (source, targets, type, event, guard outcome); z3 discharges, on every feasible path, that the post-configuration is legal, duplicate-free, the history invariant holds again and no state is entered while active / exited while inactive. One inductive step covers event histories of any length for the catalogue shapes.',
-            'Trusted: mirsym + environment models; the legality/invariant predicates in harness/src/sc.rs and h_fsm.rs. Bounds: 12 catalogue shapes (<= 11 states), T <= 2 symbolic transitions. One known finding (history target inside its un-exited parent re-runs onentry, W3C-literal).',
+            'Trusted: mirsym + environment models; the legality/invariant predicates in harness/src/sc.rs and h_fsm.rs. Bounds: 15 catalogue shapes (<= 11 states), both kinds of root (entered at start-up / never entered, as the readers build it), T <= 2 symbolic transitions. One known finding (history target inside its un-exited parent re-runs onentry, W3C-literal).',
             'DESIGN.md §4 C01, §2.5, Appendix A'),
     'C02': ('model_checking', 'symbolic execution of rustc MIR (mirsym) + z3 against an independently written reference semantics (differential, symbolic inputs)',
             'Bounded symbolic model checking against a reference: the ordered enabled-transition set, the guard-evaluation log, the exact sequence of exit/transition/entry bodies, the resulting configuration as an ordered set and the internal queue produced by the real code equal those of the bit-mask reference implementation of the W3C algorithm, as solver-checked equalities on every feasible path; hash-map iteration order is an arbitrary permutation, so order-dependence would surface as a refuted equality (determinism).',
@@ -29,7 +29,7 @@ CLAIMED = {
             'DESIGN.md §4 C02, §2.5'),
     'C06': ('model_checking', 'symbolic execution of rustc MIR (mirsym) + z3 on shapes with shallow/deep history (compound and parallel parents)',
             'Same runs as C02 restricted to the history obligations: after exiting an owner the stored history equals the reference record computed from the pre-configuration (shallow: active children, deep: active atomic descendants); a transition targeting a history state enters exactly the reference set, and the default-transition content appears in the trace iff nothing was recorded, after the owner onentry.',
-            'Trusted: as C02. Bounds: 5 catalogue shapes with history (shallow in compound, deep, shallow inside a parallel region, shallow owned by a parallel, deep above nested parallels), every legal recorded value, T <= 2.',
+            'Trusted: as C02. Bounds: 7 catalogue shapes with history (shallow in compound, deep, shallow inside a parallel region, shallow owned by a parallel, deep above nested parallels, deep owned by one region of a parallel, deep above a parallel with compound regions), every legal recorded value, T <= 2.',
             'DESIGN.md §4 C06'),
     'C03': ('model_checking', 'symbolic execution of rustc MIR (mirsym) + z3: the real mainEventLoop on a pre-loaded queue vs a reference macrostep loop',
             'Bounded symbolic model checking against a reference: the real mainEventLoop + exitInterpreter run on an external queue holding symbolic events followed by the platform cancel event, with symbolic transitions (trigger in {event-less guarded, external, internal}), bodies that raise internal events and an arbitrary legal start configuration; the complete trace of events made current, guard evaluations and content bodies equals the reference run-to-completion loop on every feasible path (event-less first, then oldest internal event, external events once each in order, no effect for events without transition).',
@@ -41,15 +41,15 @@ CLAIMED = {
             'DESIGN.md §4 C07'),
     'C08': ('model_checking', 'symbolic execution of rustc MIR (mirsym) + z3: the real RFsmExpressionDatamodel::executeContent on blocks of real content structs',
             'Bounded symbolic model checking: for a block [marker, X, marker] with X ranging over every element kind and every error position, symbolic branch conditions and foreach lengths, the executed order (a marker trail in the data store), the exact error.execution / raised events on the internal queue, the abort behaviour and the assigned values equal the SCXML expectation on every feasible path. The real lexer, parser and evaluator of the rfsm-expression language are interpreted.',
-            'Trusted: mirsym + environment models; expectations coded in harness/src/h_content.rs from the Recommendation. Outside: ECMAScript model, deeper nestings. Three defects repaired (fix: commits 99b1914, e7a4a83, 883c814).',
+            'Trusted: mirsym + environment models; expectations coded in harness/src/h_content.rs from the Recommendation. Outside: ECMAScript model, deeper nestings. Five defects repaired (99b1914, e7a4a83, 883c814, 0e379e1, c038114).',
             'DESIGN.md §4 C08'),
     'C10': ('model_checking', 'symbolic execution of rustc MIR (mirsym) + z3 over arbitrary i64 operands through the real lexer/parser/evaluator; Kani/CBMC for the f64 operator kernel (thorough)',
             'Bounded symbolic model checking: Integer operators equal saturating arithmetic for all i64 pairs; every expression "a op1 b op2 c" (and three-operator chains) over {+,-,*,%} parsed and evaluated by the real code equals the precedence/left-associativity oracle for all operand values (z3 equalities over 64-bit vectors); cache vs fresh compilation agree for all values; assignment semantics; a 28-item catalogue fixes mixed-type, comparison, logic, aggregation, member/index and spelling cases. Thorough: Kani decides Double contagion / no panic for any f64 x any i64.',
-            'Trusted: mirsym + environment models, the oracle table in harness/src/h_expr.rs. One repaired defect (right-to-left grouping, d1ab216); one known finding (minus directly before a digit).',
+            'Trusted: mirsym + environment models, the oracle table in harness/src/h_expr.rs. Two repaired defects (right-to-left grouping, d1ab216; Integer comparisons through f64, 0ef8045); one known finding (minus directly before a digit).',
             'DESIGN.md §4 C10'),
     'C11': ('model_checking', 'symbolic execution of rustc MIR (mirsym) + z3: panic / self-deadlock / non-termination reachability with symbolic characters and aliasing operands',
             'Bounded symbolic model checking of crash freedom: every feasible path of parsing a text of 2 (thorough: 3) arbitrary Unicode characters in three contexts, of evaluating 24 malformed/extreme texts, of Integer % for all operand pairs and of 10 expressions whose operands alias the same stored value ends with a value or an error: no panic terminator reachable, no lock on a mutex already held by the thread (holder-tracking model), step budget not exhausted; the store is usable afterwards.',
-            'Trusted: mirsym + environment models (parse::<f64>/<i64> of symbolic text over-approximated). Outside: longer arbitrary texts, unbounded nesting depth. Four defects repaired (1f9d77f, 4a14edf, e7620cf, 7367918).',
+            'Trusted: mirsym + environment models (parse::<f64>/<i64> of symbolic text over-approximated). Outside: longer arbitrary texts, unbounded nesting depth. Six defects repaired (1f9d77f, 4a14edf, e7620cf, 7367918, 390bac5, d7cbd79).',
             'DESIGN.md §4 C11'),
     'C12': ('model_checking', 'symbolic execution of rustc MIR (mirsym) + z3: panic / wedge reachability on the platform entry points under a symbolic environment',
             'Bounded symbolic model checking of crash freedom and error routing: real SendParameters::execute, Datamodel::send, ScxmlEventIOProcessor::send/send_to_session and FsmExecutor::send_to_session run with a solver-chosen environment (target form, existence of parent/child/addressed session, processor type, which argument expression fails); no panic outcome is feasible, the sender internal queue holds exactly the error event the Recommendation assigns, nothing is delivered on failure, and a main loop that executes a failing send inside a transition still terminates on cancel.',
@@ -65,21 +65,21 @@ CLAIMED = {
             'DESIGN.md §4 C16'),
     'C17': ('other', 'lock-order prediction: symbolic execution of every thread role (mirsym, holder-tracking mutex model) + z3 cycle query over the recorded acquisition edges',
             'Not a deadlock-freedom proof. Every thread role of a 3-session scenario (host starting a session, the session thread, a session executing <send> with a solver-chosen target, the timer thread firing a delayed send, host send, child cancel, executor shutdown) is executed symbolically on the real code; each acquisition records the locks already held; z3 decides whether two acquisitions by different threads close a cycle without a common gate lock (GoodLock). unsat on all explored role paths = no lock-order inversion among them. Interleavings of real OS threads are not explored by this family of technique.',
-            'Trusted: the mutex model (lock/try_lock/guard drop from the drop-elaborated MIR), sequential composition of roles. One inversion (executor state vs I/O processor) was predicted, reproduced natively by harness/src/bin/stress_c17.rs and repaired (f2d726f).',
+            'Trusted: the mutex model (lock/try_lock/guard drop from the drop-elaborated MIR), sequential composition of roles. Two inversions were predicted and repaired (session global data vs I/O processor between an invoking session and its timer thread, 9a6307d, natively reproduced by seeded/C17_baseline_invoke_vs_timer_reproducer.rs); the first one (executor state vs I/O processor) was predicted, reproduced natively by harness/src/bin/stress_c17.rs and repaired (f2d726f).',
             'DESIGN.md §4 C17'),
     'C09': ('model_checking', 'symbolic execution of rustc MIR (mirsym) + z3: In() over all configurations, read-only system variables, _event fields, binding order',
             'Bounded symbolic model checking: In(id) (rfsm-expression action and null-datamodel condition) equals membership for every subset of states and every queried state; assignments (via <assign> and via script) to _sessionid, _name, _ioprocessors, _event and the standard fields of _event fail, raise error.execution and leave the value intact while a declared location changes; the seven _event fields equal the event for all presence combinations / payload shapes / values; with early binding every state is initialised with values before any content, with late binding exactly at first entry before onentry and never again (real Fsm::interpret with re-entry).',
-            'Trusted: mirsym + environment models (hash-map iteration pinned to insertion order in the read-only/event harnesses, stated in the evidence). Outside: ECMAScript datamodel. One defect repaired (9f30b1b).',
+            'Trusted: mirsym + environment models (hash-map iteration pinned to insertion order in the read-only/event harnesses, stated in the evidence). Outside: ECMAScript datamodel. Seven defects repaired (9f30b1b, e56af38, ded3330, de88f12, 5cd4102, 3cb24c4, 03a174e); one known finding (members below _event.data are writable).',
             'DESIGN.md §4 C09'),
 }
 CLAIMED['C04'] = ('model_checking', 'symbolic execution of rustc MIR (mirsym) + z3: the real scxml_reader handlers on documents rendered from a symbolic statechart model; quick-xml replaced by an event-source model validated against the native build',
-    'Bounded symbolic model checking above the lexical layer: every document rendered from the 13 catalogue shapes with a solver-chosen transition (source, targets incl. forward references, type, event spelling, cond), each spelling of the initial configuration, quoting and binding is parsed by the real reader code and the resulting Fsm is compared element by element with the model it was rendered from (nesting, kinds, document order, initial, history, onentry/onexit, transition fields); if/elseif/else chains and foreach keep order and nesting; data, invoke, send, donedata, param, content fields arrive unchanged under namespace prefixes, comments, both quote characters and entity references; equivalent descriptor spellings give the same model.',
-    'Trusted: mirsym + environment models; the quick-xml event-source model (mirsym/natives_xml.py), cross-checked on every run by executing sampled documents natively with the real quick-xml. Outside: byte-level tokenisation, XInclude (file I/O), CDATA text, larger documents. Two defects repaired (namespace-prefixed elements with child text panicked; entity references in element text kept verbatim).',
+    'Bounded symbolic model checking above the lexical layer: every document rendered from the 15 catalogue shapes with a solver-chosen transition (source, targets incl. forward references, type, event spelling, cond), each spelling of the initial configuration, quoting and binding is parsed by the real reader code and the resulting Fsm is compared element by element with the model it was rendered from (nesting, kinds, document order, initial, history, onentry/onexit, transition fields); if/elseif/else chains and foreach keep order and nesting; data, invoke, send, donedata, param, content fields arrive unchanged under namespace prefixes, comments, both quote characters and entity references; equivalent descriptor spellings give the same model.',
+    'Trusted: mirsym + environment models; the quick-xml event-source model (mirsym/natives_xml.py), cross-checked on every run by executing sampled documents natively with the real quick-xml. Outside: byte-level tokenisation, XInclude (file I/O), CDATA text, larger documents. Three defects repaired (namespace-prefixed elements with child text panicked; entity references in element text kept verbatim; invoke document ids all 0); two known findings (<log> without expr dropped; comment/CDATA inside element text kept verbatim).',
     'DESIGN.md §4 C04')
 
 CLAIMED['C14'] = ('model_checking', 'symbolic execution of rustc MIR (mirsym) + z3: the real mainEventLoop/enterStates/exitStates/invoke/cancelInvoke on statecharts with <invoke> elements vs a reference loop; a real child session started through the executor',
     'Bounded symbolic model checking of the part of the life cycle that one session thread decides: invokes start exactly for the states entered and still active at the end of a macrostep (never for a state entered and left inside it), once, in entry/document order; leaving a state cancels exactly its running invokes and no others; an event stamped with the invoke id of a running child runs exactly that invoke\'s <finalize> before transitions are selected; events from sessions that are not (any more) invoked are not processed; every external event is forwarded to every running child with autoforward; the child-session table holds exactly the running children; a real child started from inline XML takes passed values only for <data> it declares, and its parent receives the child\'s events first and done.invoke.<id> once, last, all stamped with the invoke id.  The orders of arrival [host event, child event / stale event / done.invoke] are enumerated instead of thread schedules.',
-    'Trusted: mirsym + environment models (thread spawn = registered closure run at join, mpsc FIFO), the reference loop in harness/src/h_inv.rs. Outside: real thread races between parent and child (stated in the evidence), src= loading, idlocation. Two defects repaired (invoke document ids all 0 when read from XML; autoforward only for events coming from the same child).',
+    'Trusted: mirsym + environment models (thread spawn = registered closure run at join, mpsc FIFO), the reference loop in harness/src/h_inv.rs. Outside: real thread races between parent and child (stated in the evidence), src= loading, idlocation. Three defects repaired (invoke document ids all 0 when read from XML; autoforward only for events coming from the same child; done.invoke of a cancelled child processed).',
     'DESIGN.md §4 C14')
 
 NA_REASON = {
